@@ -7,7 +7,7 @@ import shutil
 
 import vflib as V
 
-CACHE = os.path.join(V.VERIF, ".cache", "corpus")
+CACHE = os.environ.get("VERIF_CACHE") or os.path.join(V.VERIF, ".cache", "corpus")
 SETS = "default=;permsg=filepermessage=true;unsafe=enableunsafedecode=true"
 GOMOD = """module verif/corp
 
@@ -71,7 +71,7 @@ def build(scratch, seed=None):
         os.makedirs(plug)
         V.run(["go", "build", "-o", os.path.join(plug, "protoc-gen-go"), "google.golang.org/protobuf/cmd/protoc-gen-go"], cwd=V.HARNESS, timeout=600)
         V.run(["go", "build", "-o", os.path.join(plug, "protoc-gen-gogo"), "github.com/gogo/protobuf/protoc-gen-gogo"], cwd=V.HARNESS, timeout=600)
-        p = V.run(["go", "build", "-o", os.path.join(plug, "protoc-gen-fastmarshal"), "./cmd/protoc-gen-fastmarshal"], cwd=V.REPO, timeout=600, check=False)
+        p = V.run(["go", "build", "-o", os.path.join(plug, "protoc-gen-fastmarshal")] + V.COVER_FLAGS + ["./cmd/protoc-gen-fastmarshal"], cwd=V.REPO, timeout=600, check=False)
         if p.returncode != 0:
             raise V.Inconclusive("protoc-gen-fastmarshal does not build:\n" + p.stdout[-2000:])
         gen = V.build_harness(scratch, "corpusgen")
@@ -129,7 +129,7 @@ def build(scratch, seed=None):
         with open(path, "w") as f:
             f.write(src)
     binp = scratch.path("bin-drv")
-    p = V.run(["go", "build", "-tags", "verif", "-o", binp, "./cmd/drv"], cwd=d, timeout=1800, check=False)
+    p = V.run(["go", "build", "-tags", "verif", "-o", binp] + V.COVER_FLAGS + ["./cmd/drv"], cwd=d, timeout=1800, check=False)
     if p.returncode != 0:
         raise V.Inconclusive("driver build failed:\n" + (p.stdout or "")[-3000:])
     return d, entries, binp
